@@ -2,9 +2,9 @@
 CONSTANTS
     Deep = FALSE
     WalMode = "repair"
-    VerifyFilter = FALSE
-    CompressionRecordChecked = FALSE
-    RepairOnlyNewestSegment = FALSE
+    VerifyFilter = TRUE
+    CompressionRecordChecked = TRUE
+    RepairOnlyNewestSegment = TRUE
     KnownGaps = {"sst.filter_used_unverified", "wal.compression_record_unverified", "wal.repair_in_the_middle_of_the_log", "sst.footer_handle_unverified"}
     Absent = "ABSENT"
     Tables <- MCTables
